@@ -28,6 +28,8 @@ class Verifier(Engine):
         self._abstract_used = set()
         # parameters
         argnames = [a.arg for a in fn.args.args]
+        if c.ghost.get("slice_from"):
+            argnames = [a for a in argnames if a in c.params or a == "self" and c.receiver_cls]
         for a in argnames:
             if a == "self":
                 cls = c.receiver_cls or (self.func.cls.name if self.func.cls else None)
@@ -51,7 +53,18 @@ class Verifier(Engine):
         # vacuity: the precondition must be satisfiable
         self.obligations.append(Obligation(f"{c.prop}/{c.short}/vacuity.requires", list(st.pc), FALSE,
                                            self.func.where(), kind="must_be_sat", inputs=self.input_terms))
-        outs = self.exec_block(fn.body, st)
+        body = fn.body
+        sl = c.ghost.get("slice_from")
+        if sl:
+            # mechanical slice: verify the suffix of the body that starts at the first top-level statement whose
+            # source text starts with `sl`; the free variables of the suffix are the contract's parameters.  What is
+            # dropped (the prefix) is reported in the evidence by the contract's note.
+            idx = next((i for i, s_ in enumerate(fn.body) if ast.unparse(s_).startswith(sl)), None)
+            if idx is None:
+                raise SourceError(f"{c.qualname}: no top-level statement starts with {sl!r}")
+            body = fn.body[idx:]
+            self.sliced = (idx, len(fn.body))
+        outs = self.exec_block(body, st)
         n_ret = 0
         for kind, s, val in outs:
             if kind in ("normal", "return"):
